@@ -211,7 +211,23 @@ ALIAS_CORPUS = [
 ]
 
 
+# (program, prepended commands, appended commands): the SAME command objects are assembled on their own
+# and then inside the larger program (seeded change C03_17: labels resolved inside the caller's objects)
+REUSE_CORPUS = [
+    ([{"l": "L"}, {"m": "add", "a": [], "o": [{"r": [0, 0]}, {"r": [0, 0]}, {"r": [0, 1]}]},
+      {"m": "jmp", "a": [], "o": [{"lab": "L"}]}],
+     [{"m": "set", "a": [], "o": [{"r": [0, 0]}, {"i": 1}]}, {"m": "set", "a": [], "o": [{"r": [0, 1]}, {"i": 2}]},
+      {"m": "add", "a": [], "o": [{"r": [0, 1]}, {"r": [0, 1]}, {"i": 4}]}], []),
+    ([{"m": "beq", "a": [], "o": [{"r": [0, 0]}, {"r": [0, 1]}, {"lab": "END"}]},
+      {"m": "store", "a": [3], "o": [{"e": [0, {"i": 1}]}]}, {"l": "END"}],
+     [{"m": "array", "a": [], "o": [{"i": 4}, {"a": 0}]}], [{"m": "ret_arr", "a": [], "o": [{"a": 0}]}]),
+]
+
 FRONT_CORPUS = [
+    "# DEFINE n R1\n# DEFINE N R2\nset $N 1\nset $n 2\n",          # macro keys differing only in case
+    "# DEFINE ms @0\n# DEFINE MS @1\n# DEFINE ms1 @2\narray(2) $MS\narray(3) $ms\narray(4) $ms1\n",
+    "# DEFINE set add\n# DEFINE R1 R7\n$set $R1 $R1 1\n",            # keys equal to a mnemonic / a register
+
     "retry:\nset R0 1\nRETRY:\nset R1 2\njmp RETRY\njmp retry\n",   # labels differing only in case
     "L:\nL1:\nset R0 1\nL10:\njmp L1\njmp L10\njmp L\n",
     "set:\njmp set\nSET:\njmp SET\n",                                  # a label named like a mnemonic
@@ -372,6 +388,30 @@ def run(ctx):
     if len(res.samples) < 3:
         res.samples.append({"program": progs[0], "assembled": real[0]})
 
+    # ------------------------------------------------ stream A2: the caller's IR objects are inputs, not scratch
+    reuse_cases = [(copy.deepcopy(p), copy.deepcopy(pre), copy.deepcopy(suf)) for p, pre, suf in REUSE_CORPUS]
+    for _ in range(3000 if ctx.thorough else 350):
+        p = H.gen_std_program(rng, max_len=10) if rng.random() < 0.75 else H.gen_wild_program(rng, max_len=8)
+        pre = [{"m": "set", "a": [], "o": [{"r": [0, rng.randrange(16)]}, {"i": rng.randrange(9)}]}
+               for _ in range(rng.choice([0, 1, 2, 3, 5]))]
+        if pre and rng.random() < 0.4:
+            pre.insert(rng.randrange(len(pre) + 1), {"l": "PRE_" + rng.choice(["L", "l", "1"])})
+        if rng.random() < 0.3:
+            pre.append({"m": "add", "a": [], "o": [{"r": [0, 1]}, {"r": [0, 1]}, {"i": 4}]})   # a literal: one more inserted set
+        suf = rng.choice([[], [{"l": "SUF_END"}], [{"m": "ret_reg", "a": [], "o": [{"r": [0, 0]}]}]])
+        reuse_cases.append((p, pre, suf))
+    n_reuse = 0
+    for p, pre, suf in reuse_cases:
+        res.evaluations += 1
+        bad = H.reuse_oracle(p, pre, suf)
+        res.count("ir-reuse:" + ("ok" if bad is None else "FAIL"))
+        if bad is not None and n_reuse <= 5:
+            n_reuse += 1
+            small = H.shrink(p, lambda q: H.reuse_oracle(q, pre, suf) is not None)
+            res.failures.append({"what": bad["what"], "kf": None,
+                                 "input": {"program": small, "prepended": pre, "appended": suf,
+                                           "detail": H.reuse_oracle(small, pre, suf)}})
+
     # ------------------------------------------------ stream B: text front end
     lines_reqs, lines_real = [], []
     word_reqs, word_real = [], []
@@ -389,6 +429,17 @@ def run(ctx):
         got = H.real_parse_proto("# NETQASM 0.0\n# APPID 0\n" + txt)
         if got != {"ok": want}:
             res.failures.append({"what": "a macro use is replaced by a macro whose key is a prefix of its name",
+                                 "kf": None, "input": {"text": txt, "parsed": got, "expected": want}})
+    for txt, want in [
+        ("# DEFINE n R1\n# DEFINE N R2\nset $N 1\nset $n 2\n",
+         [{"m": "set", "a": [], "o": [{"r": [0, 2]}, {"i": 1}]}, {"m": "set", "a": [], "o": [{"r": [0, 1]}, {"i": 2}]}]),
+        ("# DEFINE Ms @1\n# DEFINE ms @0\nret_arr $ms\nret_arr $Ms\n",
+         [{"m": "ret_arr", "a": [], "o": [{"a": 0}]}, {"m": "ret_arr", "a": [], "o": [{"a": 1}]}]),
+    ]:
+        res.evaluations += 1
+        got = H.real_parse_proto("# NETQASM 0.0\n# APPID 0\n" + txt)
+        if got != {"ok": want}:
+            res.failures.append({"what": "a macro use is replaced by a macro whose key is not exactly its name",
                                  "kf": None, "input": {"text": txt, "parsed": got, "expected": want}})
     res.evaluations += 1
     if H.real_parse_proto(f4_text) != {"ok": f4_want}:
@@ -471,12 +522,23 @@ def run(ctx):
         word_reqs.append({"op": "asm.splitbracket", "word": w, "br": br})
         word_real.append(H.real_split_bracket(w, br))
         # macro bodies with adjacent / nested-looking uses
-        keys = rng.sample(["a", "a1", "ab", "b", "a_"], rng.randrange(1, 4))
-        macros = [(k, rng.choice(["R0", "R15", "@1", "{x y}", "7"])) for k in keys]
-        body = ["".join(rng.choice(["$", "a", "1", "b", "_", " ", "$a", "$a1", "[", "]"]) for _ in range(rng.randrange(1, 10)))
-                for _ in range(rng.randrange(1, 3))]
+        fam = rng.choice(H.MACRO_KEY_FAMILIES + [["a", "a1", "ab", "b", "a_"]])
+        keys = rng.sample(fam, min(len(fam), rng.randrange(1, 5)))
+        vals = ["R0", "R15", "@1", "{x y}", "7", "R2", "Q1", "13"]
+        rng.shuffle(vals)
+        macros = [(k, vals[i % len(vals)]) for i, k in enumerate(keys)]
+        pieces = ["$", "a", "1", "b", "_", " ", "$a", "$a1", "[", "]"] + ["$" + k for k in fam] + [" $" + k + " " for k in keys]
+        body = ["".join(rng.choice(pieces) for _ in range(rng.randrange(1, 10))) for _ in range(rng.randrange(1, 3))]
         lines_reqs.append({"op": "asm.macros", "lines": body, "macros": [list(kv) for kv in macros]})
         lines_real.append(H.real_apply_macros(body, macros))
+        # model-free: where the statement's token-wise reading is defined, the code must produce it
+        if H.tokenwise_applicable(body, macros) and len([f for f in res.failures if f["what"].startswith("macro")]) <= 3:
+            want = {"lines": H.tokenwise_reference(body, macros)}
+            if lines_real[-1] != want:
+                res.failures.append({"what": "macro substitution is not the replacement of every use `$name` by the macro "
+                                             "called exactly `name`", "kf": None,
+                                     "input": {"lines": body, "macros": [list(kv) for kv in macros],
+                                               "expected": want, "code": lines_real[-1]}})
     for rq, rr, mm in zip(lines_reqs + word_reqs, lines_real + word_real, H.batch(drv, lines_reqs + word_reqs)):
         res.evaluations += 1
         res.count("text:" + rq["op"])
